@@ -31,10 +31,12 @@ type Op struct {
 	MediaType  string `json:"media_type,omitempty"`
 	Size       int64  `json:"size,omitempty"` // PushBlob: declared size
 	StartAfter string `json:"start_after,omitempty"`
-	Hint       int    `json:"hint,omitempty"`
-	Offset     int64  `json:"offset,omitempty"`
-	H          int    `json:"h,omitempty"`      // writer ops / resume: handle index
-	IDLit      string `json:"id_lit,omitempty"` // resume with a literal (unknown) id instead of handle H's
+	// Referrers: restrict the listing to manifests of this artifact type ("" = all)
+	ArtifactType string `json:"artifact_type,omitempty"`
+	Hint         int    `json:"hint,omitempty"`
+	Offset       int64  `json:"offset,omitempty"`
+	H            int    `json:"h,omitempty"`      // writer ops / resume: handle index
+	IDLit        string `json:"id_lit,omitempty"` // resume with a literal (unknown) id instead of handle H's
 	// Upload (composite chunked upload): Parts are written in order; ResumeAt lists the part
 	// indexes before which the writer is closed and resumed (mode: 0 = at Size(), 1 = with -1).
 	Parts     [][]byte `json:"parts,omitempty"`
@@ -78,6 +80,9 @@ func (o *Op) String() string {
 	}
 	if o.StartAfter != "" {
 		f("after", fmt.Sprintf("%q", o.StartAfter))
+	}
+	if o.ArtifactType != "" {
+		f("artifact_type", o.ArtifactType)
 	}
 	if strings.HasPrefix(o.Kind, "W.") || o.Kind == "PushBlobChunkedResume" {
 		f("h", o.H)
@@ -476,7 +481,7 @@ func (e *Env) Exec(op *Op) *Outcome {
 	case "Tags":
 		return listTwice(e, r.Tags(ctx, op.Repo, op.StartAfter), op.StopAfter, op.MaxItems, func(s string) string { return s })
 	case "Referrers":
-		return listTwice(e, r.Referrers(ctx, op.Repo, dig, ""), op.StopAfter, op.MaxItems, DescItem)
+		return listTwice(e, r.Referrers(ctx, op.Repo, dig, op.ArtifactType), op.StopAfter, op.MaxItems, DescItem)
 	}
 	return fail(fmt.Errorf("HARNESS: unknown op kind %q", op.Kind))
 }
